@@ -677,6 +677,8 @@ def main():
                 add(upper_spec(F), sizes, opts)
         # the empty cooler (no pixel at all): every mode, chunksize None and 3
         add(upper_spec(np.zeros((4, 4), dtype=int)), (2, 2), [one_sweep(mode=m, ig=1, nnz=z, cs=c) for m in ("gw", "cis", "trans") for z in (0, 1) for c in (None, 3)])
+        # trans-only on a one-chromosome cooler (no inter-chromosomal data at all)
+        add(upper_spec(curated()[0][1]), (5,), [O(mode="trans", maxit=6), one_sweep(mode="trans", ig=0, nnz=0)])
         # S2: curated matrices; every value of every option axis around the base on the 2-chromosome layout, seeded vectors elsewhere
         for k, (name, F) in enumerate(curated()):
             lays = LAYOUTS[len(F)]
@@ -698,7 +700,7 @@ def main():
                 opts += [O(mode=m, nnz=3), O(mode=m, ig=2, nnz=5, mad=5), O(mode=m, ig=0, nnz=0, mad=1, cnt=6)] + random_opts(B.rng, m, 1)
             add(spec, sizes, opts)
         B.bound = ("all 64 symmetric 0/1 patterns on 4 bins (diagonal 1,0,2,1) x {2+2: genome-wide, cis, trans | 2+1+1: cis, trans} x ignore_diags {0,1} "
-                   "at one sweep (tol 1e6; min_nnz {0,2} genome-wide) and to tol 1e-5 at ignore_diags 1 (genome-wide on 2+2, trans on 2+1+1); the empty 4-bin cooler x every mode x chunksize {None,3}; "
+                   "at one sweep (tol 1e6; min_nnz {0,2} genome-wide) and to tol 1e-5 at ignore_diags 1 (genome-wide on 2+2, trans on 2+1+1); the empty 4-bin cooler x every mode x chunksize {None,3}; trans-only on a one-chromosome cooler; "
                    "3 curated 5-6 bin matrices (dense, empty row + diagonal-only bin, graded marginals) x 2 chromosomes x every mode x "
                    "every value of each option axis around a base vector (ignore_diags 0..3, min_nnz 0..3, min_count {0,3,6}, mad_max {0,1,5}, 5 blacklists, "
                    "tol {1e-8,1e-5,1e-2,1e6}, max_iters {1,3,25,100}, 6 initial-weight vectors, rescale on/off, chunksize {None,3}); 3 more curated (banded, "
